@@ -591,8 +591,13 @@ def check(pid, tier, seed):
             for stream in cfg["streams"]:
                 ts = time.time()
                 rc, lines, err = run_harness([stream, tier, str(seed)], profile=profile)
-                if rc != 0:
+                if rc != 0 or not lines:
+                    # the harness itself failed (it aborted, or wrote nothing): the property was not checked on this stream
                     notes.append("harness stream %s exited %d: %s" % (stream, rc, err[-300:]))
+                    path = write_replay(pid, tier, seed, "correspondence-unavailable", {
+                        "obligation": "the correspondence harness did not complete stream %s (exit status %d, %d result lines)" % (stream, rc, len(lines)),
+                        "detail": err[-1500:]})
+                    violations.append((path, " no-failing-input-found"))
                 lines = cref_fill(lines)
                 mv = run_driver(lines)
                 if stream in ("compile", "c04"):
